@@ -1,4 +1,5 @@
 // PROP: C14  FAMILIES: derive=run_derive
+// FEATURE: derive_corpus
 //! C14 -- the repository's derive macro generates a correct, layout-compatible codec.  Family `derive`.
 //!
 //!   derive enc  <Name> <ty> <val>    -> ok:[elements]
